@@ -9,6 +9,7 @@ pub mod c09;
 pub mod c13;
 pub mod c08;
 pub mod c07;
+pub mod c03;
 
 pub fn meta(id: &str, tier: &str) -> Option<CheckMeta> {
     match id {
@@ -20,6 +21,7 @@ pub fn meta(id: &str, tier: &str) -> Option<CheckMeta> {
         "C13" => Some(c13::meta(tier)),
         "C08" => Some(c08::meta(tier)),
         "C07" => Some(c07::meta(tier)),
+        "C03" => Some(c03::meta(tier)),
         _ => None,
     }
 }
@@ -48,6 +50,7 @@ pub fn worker(ctx: &Ctx, res: &mut ShardResult) {
         "C13" => c13::worker(ctx, res),
         "C08" => c08::worker(ctx, res),
         "C07" => c07::worker(ctx, res),
+        "C03" => c03::worker(ctx, res),
         _ => panic!("unknown check"),
     }
 }
@@ -66,6 +69,7 @@ pub fn replay(path: &str) -> i32 {
         "C13" => c13::replay(&v["case"]),
         "C08" => c08::replay(&v["case"]),
         "C07" => c07::replay(&v["case"]),
+        "C03" => c03::replay(&v["case"]),
         _ => vec![format!("no replayer for {}", id)],
     };
     let _ = json!(null);
